@@ -446,7 +446,10 @@ func rulesC12(p *Prog, r *Report) {
 				if !a.IsCmp || (a.Op != "==" && a.Op != "!=") {
 					return false, false
 				}
-				isFrom := func(v ssa.Value) bool { pr, ok := v.(*ssa.Parameter); return ok && pr.Parent() == admin && pr.Name() == "from" }
+				isFrom := func(v ssa.Value) bool {
+					pr, ok := v.(*ssa.Parameter)
+					return ok && pr.Parent() == admin && pr.Name() == "from"
+				}
 				fromAdminParam := func(v ssa.Value) bool {
 					for _, o := range p.Origins(v) {
 						if !(o.Kind == "call" && p.callIs(o.Call, "AdminParam")) {
